@@ -469,3 +469,11 @@ fn c01_is_legal() {
     let s = unsafe { SMALL.unwrap() };
     assert!(r == in_view(&s, q), "VERIF is_legal({:?}) = {} disagrees with the move list", mv, r);
 }
+
+/// C07: the move list has at least the 18 slots the counting lemma needs (<= 16 pieces + <= 2 en-passant entries)
+#[kani::proof]
+fn c07_capacity() {
+    let l = MoveList::default();
+    assert!(l.capacity() >= 18, "VERIF move list capacity {} < 18 = 16 pieces + 2 en-passant capturers", l.capacity());
+    assert!(PROMOTION_PIECES.len() == 4, "VERIF promotion piece table");
+}
